@@ -120,7 +120,7 @@ class Driver:
         return self._classinfo[qual]
 
     def callee_contract(self, qual):
-        c = self.all.get(qual)
+        c = self.contract.callees.get(qual) or self.all.get(qual)
         if c is not None and c.key != self.contract.key and c.kind in ('function', 'assumed'):
             modular = c.modular if c.modular is not None else (c.result is not None or c.kind == 'assumed')
             if modular:
